@@ -32,7 +32,10 @@ RealAcct(ev, GG) ==
    ak |-> {GG[i] : i \in {j \in 1..Len(GG) : ev.ak[j] = 1}}]
 EntriesOf(ev) == {[p |-> ev.pods[i].p, st |-> ev.pods[i].st, grp |-> ev.pods[i].grp, gh |-> ev.pods[i].gh, nom |-> ev.pods[i].nom] : i \in 1..Len(ev.pods)}
 PresentOf(ev) == {[p |-> ev.present[i].p, st |-> ev.present[i].st, grp |-> ev.present[i].grp] : i \in 1..Len(ev.present)}
-NoInfo == [op |-> "Init", call |-> "None", err |-> "", mm |-> 0, units |-> TRUE, ghostb |-> FALSE]
+NoInfo == [op |-> "Init", call |-> "None", err |-> "", mm |-> 0, units |-> TRUE, ghostb |-> FALSE, pipeb |-> FALSE]
+
+\* a nominated (Pipelined) pod that asks for GPU (fraction or whole) is accounted on the node
+PipeGpu(X) == \E e \in X : e.st = "Pipelined" /\ kinds[e.p].k \in {"frac", "whole"}
 
 TraceInit ==
   \E i \in Starts :
@@ -57,7 +60,7 @@ TraceStep ==
      /\ E' = EntriesOf(ev)
      /\ present' = PresentOf(ev) /\ npresent' = ev.npresent
      /\ vec' = [idle |-> Vm(ev.idlev), used |-> Vm(ev.usedv), rel |-> Vm(ev.relv)]
-     /\ info' = [op |-> ev.op, call |-> ev.call, err |-> ev.err, mm |-> ev.mm, ghostb |-> \E e \in E : e.gh = 1,
+     /\ info' = [op |-> ev.op, call |-> ev.call, err |-> ev.err, mm |-> ev.mm, ghostb |-> \E e \in E : e.gh = 1, pipeb |-> PipeGpu(E),
                  units |-> \A f \in {"idle", "used", "rel", "idlev", "usedv", "relv"} : ev[f].gpu % 1000 = 0]
      /\ act' = Lbl(ev.op, ev.call, ev.p, ev.st, ev.grp)
   /\ l' = l + 1
@@ -121,8 +124,7 @@ Triage ==
   ELSE PrintT("VERDICT " \o ToJson(
          [l0 |-> l0, l |-> l - 1, failing |-> Failing,
           didle |-> VSub(A.idle, TruthIdle(E)), dused |-> VSub(A.used, TruthUsed(E)), drel |-> VSub(A.rel, TruthRel(E)),
-          pipesharer |-> \E e \in E : IsFrac(e.p) /\ e.st = "Pipelined",
-          pipe |-> \E e \in E : e.st = "Pipelined",
+          pipegpu |-> PipeGpu(E) \/ info.pipeb,
           ghost |-> \E e \in E : e.gh = 1, ghostb |-> info.ghostb,
           op |-> info.op, call |-> info.call]))
 =============================================================================
